@@ -81,10 +81,14 @@ class PythonModelGenerator(IndentPrintMixin):
         rule_specs = {rule.name: self._base_class_specs(rule) for rule in grammar.rules}
         rule_specs = {name: specs for name, specs in rule_specs.items() if specs}
 
-        specs_by_name = {
-            s.class_name: s.base for specs in rule_specs.values() for s in specs
-        }
         base = self._model_base_name()
+        # note: every chain ends with an implicit link to the model base,
+        #   which must not replace a base declared by another rule's chain
+        specs_by_name: dict[str, str] = {}
+        for specs in rule_specs.values():
+            for s in specs:
+                if specs_by_name.get(s.class_name, base) == base:
+                    specs_by_name[s.class_name] = s.base
         specs_by_name[base] = basetype_name
 
         all_specs = {
@@ -102,7 +106,7 @@ class PythonModelGenerator(IndentPrintMixin):
             if model_name in vars(builtins):
                 continue
             if rule := model_to_rule.get(model_name):
-                self._gen_rule_class(rule, rule_specs[rule.name])
+                self._gen_rule_class(rule, model_name, specs_by_name[model_name])
             else:
                 self._gen_base_class(model_name, specs_by_name.get(model_name))
 
@@ -126,10 +130,7 @@ class PythonModelGenerator(IndentPrintMixin):
         with self.indent():
             self.print('pass')
 
-    def _gen_rule_class(self, rule: g.Rule, specs: list[BaseClassSpec]):
-        if not specs:
-            return
-        spec = specs[0]
+    def _gen_rule_class(self, rule: g.Rule, class_name: str, base: str):
         # note: the fields must be named after the keys the AST will have
         safekey = AST()._safekey
         arguments = sorted(
@@ -139,7 +140,7 @@ class PythonModelGenerator(IndentPrintMixin):
         self.print()
         self.print()
         self._print_dataclass()
-        self.print(f'class {spec.class_name}({spec.base}):')
+        self.print(f'class {class_name}({base}):')
         with self.indent():
             if not arguments:
                 self.print('pass')
